@@ -202,7 +202,7 @@ func (e *epoch) resolve(q *Query, key string) string {
 	case epEntry:
 		t = q.fresh("H0_"+key, sortOf)
 	case epHavoc:
-		if e.keepOnly != nil && e.keepOnly(key) {
+		if (e.keepOnly != nil && e.keepOnly(key)) || immutableHeapKeys[key] {
 			t = e.parent.get(key)
 			break
 		}
@@ -477,3 +477,7 @@ func (q *Query) ghostEntry(key string) string {
 	}
 	return name
 }
+
+// immutableHeapKeys: fields declared immutable (written only during
+// construction) survive every havoc.
+var immutableHeapKeys = map[string]bool{}
